@@ -874,6 +874,183 @@ theorem proj_cols (t t' : Table) (ks : List String) (hks : ks ≠ []) (hn : ks.N
         simp only [this]
         exact ih hm hnd.2
 
+/-! ### the plain list-of-records machine and the refinement statements in its terms
+
+`Recs` is the reference the property text speaks of: column names and a list of records.  `abs` reads a
+dictable as records.  Each `abs_*` theorem says: the model's operation, seen through `abs`, IS the
+list-of-records operation (they repackage `mask_rows`, `take_rows`, `slice_rows`, `relabel_rows`,
+`len_shape`, `iter_rows`). -/
+
+structure Recs where
+  cols : List String
+  rows : List (List Cell)
+  deriving Repr, DecidableEq
+
+def abs (t : Table) : Recs := ⟨t.cols, t.rows⟩
+
+namespace Recs
+
+/-- keep the flagged records -/
+def mask (r : Recs) (m : List Bool) : Recs := ⟨r.cols, ((r.rows.zip m).filter (·.2)).map (·.1)⟩
+
+/-- `[records[i] for i in is]` with python indices; IndexError if one is out of range -/
+def take (r : Recs) (is : List Int) : Except Err Recs :=
+  if is.all fun i => (pyIdx r.rows.length i).isSome then
+    .ok ⟨r.cols, is.filterMap fun i => (pyIdx r.rows.length i).map fun j => r.rows.getD j []⟩
+  else .error .index
+
+/-- `records[a:b:s]` -/
+def slice (r : Recs) (a b : Option Int) (s : Int) : Recs :=
+  ⟨r.cols, (sliceIdx r.rows.length a b s).map fun j => r.rows.getD j []⟩
+
+/-- rename the keys of every record -/
+def rename (r : Recs) (f : String → String) : Recs := ⟨r.cols.map f, r.rows⟩
+
+end Recs
+
+theorem abs_rows_getD (t : Table) (n : Nat) (hr : t.Rect n) (hne : t ≠ []) (j : Nat) (hj : j < n) :
+    t.rows.getD j [] = t.row j := by
+  simp [rows, nrows_of_rect hr hne, List.getD_eq_getElem?_getD, hj]
+
+theorem abs_mask (t : Table) (n : Nat) (hr : t.Rect n) (hne : t ≠ []) (m : List Bool) (hm : m.length = n) :
+    ∃ t', t.getMask m = .ok t' ∧ abs t' = (abs t).mask m := by
+  obtain ⟨t', h1, h2, h3⟩ := mask_rows t n hr hne m hm
+  exact ⟨t', h1, by simp [abs, Recs.mask, h2, h3]⟩
+
+theorem abs_take (t : Table) (n : Nat) (hr : t.Rect n) (hne : t ≠ []) (is : List Int) :
+    (∀ t', t.getTake is = .ok t' → (abs t).take is = .ok (abs t')) ∧
+    (∀ e, t.getTake is = .error e → (abs t).take is = .error e) := by
+  have hlen : (abs t).rows.length = n := rows_length hr hne
+  constructor
+  · intro t' h
+    obtain ⟨h1, h2, h3⟩ := take_rows t t' n hr hne is h
+    have hl : t.rows.length = n := hlen
+    have hall : (is.all fun i => (pyIdx (abs t).rows.length i).isSome) = true := by
+      rw [hlen]; exact List.all_eq_true.2 h2
+    unfold Recs.take
+    rw [if_pos hall, hlen]
+    simp only [abs, h1, h3]
+    congr 2
+    apply filterMap_congr'
+    intro i _
+    cases hp : pyIdx n i with
+    | none => rfl
+    | some j =>
+      have hj : j < n := by
+        unfold pyIdx at hp
+        split at hp
+        · cases hp; omega
+        · split at hp
+          · cases hp; omega
+          · cases hp
+      have := abs_rows_getD t n hr hne j hj
+      simp only [Option.map_some]
+      rw [this]
+  · intro e h
+    unfold getTake at h
+    rw [nrows_of_rect hr hne] at h
+    split at h
+    · cases h
+    · split at h
+      · rename_i e' he'
+        cases h
+        obtain ⟨he, i, hi, hnone⟩ := mapE_pyIdx_error he'
+        subst he
+        have hbad : ¬ (is.all fun i => (pyIdx (abs t).rows.length i).isSome) = true := by
+          rw [hlen]
+          intro hall
+          have := List.all_eq_true.1 hall i hi
+          simp [hnone] at this
+        simp only [Recs.take]
+        rw [if_neg hbad]
+      · cases h
+
+theorem abs_slice (t : Table) (n : Nat) (hr : t.Rect n) (hne : t ≠ []) (a b : Option Int) (s : Int) (hs : s ≠ 0) :
+    ∃ t', t.getSlice a b (some s) = .ok t' ∧ abs t' = (abs t).slice a b s := by
+  obtain ⟨t', h1, h2, h3⟩ := slice_rows t n hr hne a b (some s) (by simpa using hs)
+  refine ⟨t', h1, ?_⟩
+  have hlen : t.rows.length = n := rows_length hr hne
+  simp only [abs, Recs.slice, h2, h3, hlen, Option.getD_some, Recs.mk.injEq, true_and]
+  apply List.map_congr_left
+  intro j hj
+  exact (abs_rows_getD t n hr hne j (sliceIdx_lt n a b s hs j hj)).symm
+
+theorem abs_relabel (t : Table) (r : Relabel) (hinj : (t.cols.map r.key).Nodup) :
+    abs (t.relabel r) = (abs t).rename r.key := by
+  obtain ⟨h1, h2, _⟩ := relabel_rows t r hinj
+  simp [abs, Recs.rename, h1, h2]
+
+/-- the value of a record (cells aligned with `cols`) under key `k`, `None` if the key is absent -/
+def Recs.lookup (cols : List String) (row : List Cell) (k : String) : Cell :=
+  (((cols.zip row).find? (·.1 == k)).map (·.2)).getD .none
+
+/-- list-of-records concatenation: all keys, the records of each operand in order, absent keys `None` -/
+def Recs.concat (rs : List Recs) : Recs :=
+  let keys := dedupKeys (rs.flatMap Recs.cols)
+  ⟨keys, rs.flatMap fun r => r.rows.map fun row => keys.map fun k => Recs.lookup r.cols row k⟩
+
+theorem lookup_row (t : Table) (i : Nat) (k : String) :
+    Recs.lookup t.cols (t.row i) k = (t.getCol k).getD i .none := by
+  have hrow : t.cols.zip (t.row i) = t.map fun c => (c.1, c.2.getD i .none) := by
+    simp [cols, row, List.zip_map']
+  unfold Recs.lookup getCol col?
+  rw [hrow, List.find?_map]
+  have : ((fun x : String × Cell => x.1 == k) ∘ fun c : String × List Cell => (c.1, c.2.getD i Cell.none))
+      = fun c => c.1 == k := by funext c; rfl
+  rw [this]
+  cases t.find? (fun c => c.1 == k) with
+  | none =>
+    simp only [Option.map_none, Option.getD_none, List.getD_eq_getElem?_getD, List.getElem?_replicate]
+    split <;> rfl
+  | some e => simp
+
+/-- **concatenation refines list-of-records concatenation** -/
+theorem abs_concat (ts : List Table) (hr : ∀ t ∈ ts, ∃ n, t.Rect n) :
+    abs (Table.concat ts) = Recs.concat (ts.map abs) := by
+  have hkeys : (ts.map abs).flatMap Recs.cols = ts.flatMap Table.cols := by
+    simp [List.flatMap_map, abs]
+  have hcols : (Table.concat ts).cols = dedupKeys (ts.flatMap Table.cols) := by
+    simp [Table.concat, cols, List.map_map, Function.comp_def]
+  unfold abs Recs.concat
+  simp only [hkeys, hcols, Recs.mk.injEq, true_and, List.flatMap_map]
+  by_cases hk : (Table.concat ts).cols = []
+  · -- no columns anywhere: no rows anywhere
+    have hnil : ∀ t ∈ ts, t = [] := by
+      intro t ht
+      cases t with
+      | nil => rfl
+      | cons c t' =>
+        exfalso
+        have : c.1 ∈ (Table.concat ts).cols := (concat_cols ts c.1).2 ⟨_, ht, by simp [cols]⟩
+        rw [hk] at this; cases this
+    have h1 : (Table.concat ts).rows = [] := by
+      have : Table.concat ts = [] := by
+        cases hc : Table.concat ts with
+        | nil => rfl
+        | cons c t' => rw [hc] at hk; simp [cols] at hk
+      rw [this]; rfl
+    rw [h1]
+    symm
+    apply List.flatMap_eq_nil_iff.2
+    intro t ht
+    rw [hnil t ht]; rfl
+  · rw [concat_rows ts hr hk, hcols]
+    congr 1
+    funext t
+    simp only [rows, List.map_map]
+    apply List.map_congr_left
+    intro i _
+    apply List.map_congr_left
+    intro k _
+    exact (lookup_row t i k).symm
+
+/-- len / iteration through `abs`: `len(d)` is the number of records, `list(d)` are the records zipped
+with the column names -/
+theorem abs_len_iter (t : Table) (n : Nat) (hr : t.Rect n) :
+    t.len = .ok (abs t).rows.length ∧ t.iter = (abs t).rows.map fun r => (abs t).cols.zip r := by
+  refine ⟨?_, rfl⟩
+  rw [len_rect' hr]; simp [abs, rows]
+
 /-! ### non-vacuity: the hypotheses are satisfiable on non-trivial values -/
 
 /-- a 3-row, 2-column table; the history below builds it, masks it to nothing, assigns, concatenates -/
